@@ -143,12 +143,25 @@ Definition v_float (v : jv) : res fl :=
 Definition bool_true_strs : list string := ["1"; "true"; "t"; "yes"; "y"; "on"].
 Definition bool_false_strs : list string := ["0"; "false"; "f"; "no"; "n"; "off"].
 
+(* pydantic-core compares the string with these spellings ignoring ASCII case
+   (str::eq_ignore_ascii_case): "TRUE", "Yes", "oN" are accepted, " yes", "1.0", full-width
+   letters are not; an int must be 0 or 1, a float 0.0 (also -0.0) or 1.0 *)
+Definition lower_ascii (c : ascii) : ascii :=
+  let n := nat_of_ascii c in
+  if (Nat.leb 65 n && Nat.leb n 90)%nat then ascii_of_nat (n + 32) else c.
+Fixpoint lower (s : string) : string :=
+  match s with
+  | EmptyString => EmptyString
+  | String c r => String (lower_ascii c) (lower r)
+  end.
+
 Definition v_bool (v : jv) : res bool :=
   match v with
   | JBool b => Ok b
   | JInt z => if z =? 0 then Ok false else if z =? 1 then Ok true else verr
   | JFlt (Fin z) => if z =? 0 then Ok false else if z =? FSCALE then Ok true else verr
-  | JStr s => if smem s bool_true_strs then Ok true else if smem s bool_false_strs then Ok false else verr
+  | JStr s => if smem (lower s) bool_true_strs then Ok true
+              else if smem (lower s) bool_false_strs then Ok false else verr
   | _ => verr
   end.
 
@@ -262,9 +275,112 @@ Fixpoint assoc (k : string) (l : list (string * string)) : option string :=
   | (k', v) :: r => if String.eqb k k' then Some v else assoc k r
   end.
 
+(* ---- numpy's reading of a dtype STRING, as far as it can end in one of the allowed names ----
+   (numpy/_core/src/multiarray/descriptor.c, _convert_from_str):  an optional byte-order
+   character < > = | ; then either ONE type character, or a kind character followed by a size
+   that C's strtol reads from the whole rest (optional blanks, optional sign, decimal digits),
+   or -- the whole string, byte-order character included -- a name of numpy's type dictionary.
+   Everything else numpy understands (sub-arrays, comma-separated fields, datetimes, sizes
+   that give float16 / complex / void / bytesN ...) has a name outside VALID_DTYPES and is
+   rejected by _convert_dtype exactly like a string numpy does not understand, so only the
+   spellings of the allowed names matter.  Strings that numpy hands to its comma-string parser
+   (a comma, a leading digit, a leading "()") and control characters are outside this
+   description: dtype_in_scope below. *)
+Definition is_endian (c : ascii) : bool :=
+  (Ascii.eqb c "<" || Ascii.eqb c ">" || Ascii.eqb c "=" || Ascii.eqb c "|")%char.
+Definition strip_endian (s : string) : string :=
+  match s with String c r => if is_endian c then r else s | EmptyString => s end.
+
+(* C isspace: blank, \t \n \v \f \r *)
+Definition is_cspace (c : ascii) : bool :=
+  let n := nat_of_ascii c in (Nat.eqb n 32 || (Nat.leb 9 n && Nat.leb n 13))%nat.
+Fixpoint skip_cspaces (s : string) : string :=
+  match s with
+  | String c r => if is_cspace c then skip_cspaces r else s
+  | EmptyString => s
+  end.
+Fixpoint digits_value (acc : Z) (s : string) : option Z :=
+  match s with
+  | EmptyString => Some acc
+  | String c r => if is_digit c then digits_value (acc * 10 + Z.of_nat (nat_of_ascii c - 48)) r else None
+  end.
+(* strtol(s, &end, 10) with *end == 0, errno == 0 and at least one digit: the value *)
+Definition strtol_all (s : string) : option Z :=
+  let s1 := skip_cspaces s in
+  let neg_rest := match s1 with
+                  | String c r => if Ascii.eqb c "+"%char then (false, r)
+                                  else if Ascii.eqb c "-"%char then (true, r) else (false, s1)
+                  | EmptyString => (false, s1)
+                  end in
+  match snd neg_rest with
+  | EmptyString => None
+  | ds => match digits_value 0 ds with
+          | None => None
+          | Some v => let v' := if fst neg_rest then - v else v in
+                      if (-9223372036854775808 <=? v') && (v' <=? 9223372036854775807) then Some v' else None
+          end
+  end.
+
+(* one type character *)
+Definition np_single : list (string * string) :=
+  [("?","bool"); ("b","int8"); ("h","int16"); ("i","int32"); ("l","int64"); ("q","int64"); ("p","int64"); ("n","int64");
+   ("B","uint8"); ("H","uint16"); ("I","uint32"); ("L","uint64"); ("Q","uint64"); ("P","uint64"); ("N","uint64");
+   ("f","float32"); ("d","float64"); ("U","str"); ("S","bytes")].
+(* kind character + size in bytes (U: in characters, at most (2^31-1)/4; S: only the unsized S0 is called "bytes") *)
+Definition np_sized (k : ascii) (v : Z) : option string :=
+  if Ascii.eqb k "S"%char then (if v =? 0 then Some "bytes" else None)
+  else if Ascii.eqb k "U"%char then (if (0 <=? v) && (v <=? 536870911) then Some "str" else None)
+  else if Ascii.eqb k "i"%char then
+    (if v =? 1 then Some "int8" else if v =? 2 then Some "int16" else if v =? 4 then Some "int32"
+     else if v =? 8 then Some "int64" else None)
+  else if Ascii.eqb k "u"%char then
+    (if v =? 1 then Some "uint8" else if v =? 2 then Some "uint16" else if v =? 4 then Some "uint32"
+     else if v =? 8 then Some "uint64" else None)
+  else if Ascii.eqb k "f"%char then (if v =? 4 then Some "float32" else if v =? 8 then Some "float64" else None)
+  else if Ascii.eqb k "b"%char then (if v =? 1 then Some "bool" else None)
+  else None.
+(* the names of numpy's type dictionary (np.sctypeDict) whose dtype carries an allowed name *)
+Definition np_dict : list (string * string) :=
+  [("bool","bool"); ("bool_","bool"); ("byte","int8"); ("bytes","bytes"); ("bytes_","bytes"); ("double","float64");
+   ("float","float64"); ("float32","float32"); ("float64","float64"); ("int","int64"); ("int16","int16");
+   ("int32","int32"); ("int64","int64"); ("int8","int8"); ("int_","int64"); ("intc","int32"); ("intp","int64");
+   ("long","int64"); ("longlong","int64"); ("short","int16"); ("single","float32"); ("str","str"); ("str_","str");
+   ("ubyte","uint8"); ("uint","uint64"); ("uint16","uint16"); ("uint32","uint32"); ("uint64","uint64"); ("uint8","uint8");
+   ("uintc","uint32"); ("uintp","uint64"); ("ulong","uint64"); ("ulonglong","uint64"); ("unicode","str"); ("ushort","uint16")].
+
+Definition np_valid_name (s : string) : option string :=
+  let stage1 :=
+    match strip_endian s with
+    | EmptyString => None
+    | String c EmptyString => assoc (String c EmptyString) np_single
+    | String k rest => match strtol_all rest with Some v => np_sized k v | None => None end
+    end in
+  match stage1 with Some n => Some n | None => assoc s np_dict end.
+
+(* the strings on which np_valid_name is claimed (and tied by the correspondence) to be numpy:
+   no control character, none of , ( ) and no digit in first place (after a byte-order character) *)
+Definition dtype_char_in_scope (c : ascii) : bool :=
+  let n := nat_of_ascii c in
+  (Nat.leb 32 n && negb (Nat.eqb n 127))%nat
+  && negb (Ascii.eqb c ","%char || Ascii.eqb c "("%char || Ascii.eqb c ")"%char).
+Fixpoint all_chars (f : ascii -> bool) (s : string) : bool :=
+  match s with EmptyString => true | String c r => f c && all_chars f r end.
+Definition dtype_in_scope (s : string) : bool :=
+  all_chars dtype_char_in_scope s
+  && match (match s with
+            | String c (String d r) => if is_endian c then String d r else s
+            | _ => s
+            end) with
+     | String c _ => negb (is_digit c)
+     | EmptyString => true
+     end.
+
+(* the finite table np_names above is kept for the names that are NOT allowed (their spelling
+   only documents why they are rejected); on allowed names it agrees with np_valid_name
+   (MetaLemmas.np_names_consistent) *)
 Definition np_dtype_name (v : jv) : option string :=
   match v with
-  | JStr s => assoc s np_names
+  | JStr s => match np_valid_name s with Some n => Some n | None => assoc s np_names end
   | JList [] | JObj [] => Some "void"
   | _ => None
   end.
